@@ -168,6 +168,12 @@ def property_obligations(pid):
     return res
 
 
+GEN_AGREE = {
+    "C05": ["GenAgree"], "C06": ["GenAgree"], "C08": ["GenAgree"], "C09": ["GenAgree"], "C10": ["GenAgree"],
+    "C17": ["GenAgree"], "C20": ["GenAgree"], "C15": ["GenAgree"], "C07": ["GenAgree"],
+    "C13": ["GenAgreePolicy"], "C14": ["GenAgree", "GenAgreePolicy"],
+}
+
 ALLOWED_AXIOM_PREFIXES = ()  # nothing: the development is axiom-free
 
 
@@ -459,5 +465,23 @@ def standard_proof_phase(v, pid, extra_checker=""):
         problems.append("theorems depending on axioms/section variables: " + "; ".join(ap))
     if not ob["theorems"]:
         problems.append("no theorem in Properties/%s.v" % pid)
+    # agreement between the functions/constants regenerated from the source (tools/gen -> coq/Gen)
+    # and the hand-written model of this property's layer: a changed operator or constant in the Go
+    # source breaks these obligations directly
+    for extra in GEN_AGREE.get(pid, []):
+        if not os.path.exists(os.path.join(COQ, "Properties", extra + ".v")):
+            continue
+        ok_b, mk = coq_build(targets=["Properties/%s.vo" % extra])
+        eo = property_obligations(extra)
+        v.coverage["obligations"] += len(eo["theorems"])
+        v.coverage["theorems"] = v.coverage["theorems"] + ["%s.%s" % (extra, t) for t in eo["theorems"]]
+        if eo["ok"] and not bad:
+            v.coverage["discharged"] += len(eo["discharged"])
+            v.coverage["assumptions_per_theorem"].update({"%s.%s" % (extra, k): a for k, a in eo["assumptions"].items()})
+            ap = assumption_problems(eo["assumptions"])
+            if ap:
+                problems.append("%s: theorems depending on axioms: %s" % (extra, "; ".join(ap)))
+        else:
+            problems.append("Properties/%s.v (regenerated source vs model) does not compile: %s" % (extra, eo["log"][-1200:]))
     v.coverage["proof_problems"] = problems
     return not problems, problems
